@@ -29,8 +29,12 @@ THEOREMS = (
     "select_perm_partial", "itemsOfState_strip", "select_programme_lowest_id", "select_programme_order_independent",
     "select_perm_objects", "select_perm_objects_rename", "renameObjects_renamed", "itemsOfState_rename",
     "selectComplementary_ok_iff",
-    # re-numbering the format part (packs / channels / trackUIDs / stream+track formats)
-    "select_perm_formats_partial", "select_perm_formats_rename_partial", "renameFormats_renamed",
+    # re-numbering the format part (packs / channels / trackUIDs / stream+track formats): success in both directions,
+    # items equal up to Perm and renaming, CHNA-only mode included
+    "select_perm_formats", "select_perm_formats_rename", "fmtRenamed_itemsOfState_iff", "fmtRenamed_stateIso",
+    "FmtRenamed.multitreeOK", "FmtRenamed.mtVisit", "FmtRenamed.wrappedPacks_back", "ProbIso.valid", "ProbIso.symm",
+    "ProbIso.roundtrip", "ProbIso.accepted", "ProbIso.dropEmpty", "outputOf_reAllocated", "wrappedPacks_all_bounds",
+    "renameFormats_renamed",
     "fmtRenamed_selectPackMapping", "fmtRenamed_itemsOfState", "valid_rename", "allocWF_of_check",
     "FmtRenamed.wrappedPacks", "FmtRenamed.outputOf", "FmtRenamed.matrixSpec", "FmtRenamed.itemsOfPack",
     # modes
@@ -54,6 +58,13 @@ THEOREMS = (
     "select_renumber_contents", "select_renumber_contents_rename", "renameContents_renamed",
     "select_renumber_programmes", "select_renumber_programmes_rename", "renameProgrammes_renamed",
     "ProgRenamed.selectProgramme_none",
+    # link to the C14 model of validate_structure: validation => multitreeOK, the AllocationPacks can be built
+    "multitreeOK_of_validate", "multitreeOK_of_validateMultitree", "mtVisit_sublist", "toDoc_packGraph",
+    "wrappedPacks_ok_of_validate", "validatedB_iff",
+    # when does selection succeed; the headline on validated documents
+    "select_ok_iff", "select_ok_iff_of_multitree", "select_eq_decl_validated", "itemsOfState_ok_iff",
+    "itemsOfState_accepted_ok_iff", "itemsOfState_error_cases", "itemsOfPack_ok_iff", "singleItem_ok_iff",
+    "flatMapE_error_mem",
 )
 
 
@@ -75,6 +86,10 @@ def classify(e):
             return "pathParamConflict"
         if "must share the same" in m:
             return "paramMismatch"
+        if m.startswith("Don't know how to produce rendering items for type"):
+            # `_get_rendering_items` on a pack type other than Objects / DirectSpeakers / HOA (an AdmError since commit
+            # 76cae51, NotImplementedError before): the model's error kind `notImplemented`
+            return "notImplemented"
         return "AdmError:" + m[:80]
     return "%s:%s" % (type(e).__name__, m[:80])
 
@@ -92,10 +107,11 @@ def run_real(b):
 
 
 def real_wf(b, maps):
-    """what the real code says about the two validation predicates of the model: does
-    `_validate_pack_channel_multitree` pass, and does every AllocationPack of `_PackAllocator` (restricted to the
-    serialised packs) have a channel (None when building them fails, e.g. on a pack loop)."""
-    from ear.core.select_items.validate import _validate_pack_channel_multitree
+    """what the real code says about the validation predicates of the model: does
+    `_validate_pack_channel_multitree` pass, does every AllocationPack of `_PackAllocator` (restricted to the
+    serialised packs) have a channel (None when building them fails, e.g. on a pack loop), and does the whole
+    `validate_structure` pass (None if it raises something other than AdmError)."""
+    from ear.core.select_items.validate import _validate_pack_channel_multitree, validate_structure
     from ear.core.select_items.select_items import _PackAllocator
     from ear.fileio.adm.exceptions import AdmError
     try:
@@ -108,7 +124,16 @@ def real_wf(b, maps):
         ne = int(all(len(p.channels) > 0 for p in packs if id(p.root_pack) in maps["pk"]))
     except Exception:
         ne = None
-    return mt, ne
+    with warnings.catch_warnings():
+        warnings.simplefilter("ignore")
+        try:
+            validate_structure(b.adm)
+            vs = 1
+        except AdmError:
+            vs = 0
+        except Exception:
+            vs = None
+    return mt, ne, vs
 
 
 def variants(scene, vseeds):
@@ -129,10 +154,14 @@ class C06(Spec):
     theorems = tuple("Earverif.Adm." + t for t in THEOREMS)
     trusted_base = (
         "model Earverif/Model/Adm.lean + SelectItems.lean is a hand transliteration of select_items.py / utils.py / "
-        "hoa.py / matrix.py over index-based documents; validate_structure and validate_selected_audioTrackUID are "
-        "not modelled (documents are assumed valid); of validate_structure the theorems use only multitreeOK (success "
-        "condition of _validate_pack_channel_multitree: no node visited twice by its dfs), evaluated by the driver "
-        "and compared with the real function on every generated document and on injected diamonds / pack loops",
+        "hoa.py / matrix.py over index-based documents; validate_selected_audioTrackUID is not modelled; "
+        "validate_structure is the C14 model (Earverif/Model/Validate.lean, tied to validate.py by the C14 check) run "
+        "on the document graph toDoc adm (Model/SelectItems.lean: the translation between the two document models); "
+        "the theorems use of it multitreeOK (success condition of _validate_pack_channel_multitree: no node visited "
+        "twice by its dfs; proved from the C14 model: multitreeOK_of_validate) and that the AllocationPacks can be built "
+        "(wrappedPacks_ok_of_validate); multitreeOK, and validateMultitree / validateStructure on toDoc, are evaluated "
+        "by the driver and compared with the real functions on every generated document and on injected diamonds / "
+        "pack loops / channel-less packs",
         "pack_allocation.allocate_packs is the C07 model (Earverif/Model/PackAlloc.lean, imported); identities of "
         "AllocationPack objects are modelled as 3*root+variant, of AllocationTrackUID objects as their position",
         "harness/c06_gen.py: serialisation of the real ADM by index (unused common-definition packs/channels are "
@@ -259,18 +288,23 @@ class C06(Spec):
                 ctx.case(("search", canon[1] if canon[0] == "err" else tuple(canon[1])), bool(canon[1]))
             return
         wouts = driver.run(wlines)
-        for (scene, vs, (mt, ne), real), line, out in zip(wmetas, wlines, wouts):
+        for (scene, vs, (mt, ne, vst), real), line, out in zip(wmetas, wlines, wouts):
             inp = {"scene": scene, "redeclaration_seed": vs, "driver_line": line}
-            want = "wf %d %s" % (mt, "?" if ne is None else str(ne))
+            want = "wf %d %s %d %s" % (mt, "?" if ne is None else str(ne), mt, "?" if vst is None else str(vst))
             got = out.split()
-            if len(got) != 3 or got[0] != "wf":
+            if len(got) != 5 or got[0] != "wf":
                 ctx.disagree("driver rejected a generated document (validation predicates)", inp, out, want)
             elif int(got[1]) != mt or (ne is not None and int(got[2]) != ne):
                 ctx.disagree("_validate_pack_channel_multitree / AllocationPack channels vs Earverif.Adm.multitreeOK / "
                              "wrappedNonempty", inp, out, want)
+            elif int(got[3]) != mt or (vst is not None and int(got[4]) != vst):
+                # the C14 model of validation run on the C06 document (toDoc): hypothesis of select_eq_decl_validated
+                ctx.disagree("_validate_pack_channel_multitree / validate_structure vs the C14 model "
+                             "Validate.validateMultitree / validateStructure on Earverif.Adm.toDoc", inp, out, want)
             else:
                 ctx.validated()
                 ctx.count("validation-predicates:multitree=%d nonempty=%s" % (mt, "?" if ne is None else ne))
+                ctx.count("validate_structure(toDoc):%s" % ("?" if vst is None else "accepts" if vst else "rejects"))
                 if mt == 0:
                     # (whether select_rendering_items rejects such a document is C14's property, not C06's)
                     ctx.count("non-multitree-document:" + ("rejected" if real[0] == "err" else "accepted"))
@@ -466,7 +500,25 @@ SPEC = C06()
 
 REGISTRY = dict(
     text="PARTIAL: Lean theorems over a transliterated model of select_rendering_items (Earverif.Adm.*; allocation = "
-    "the C07 allocator model, Matrix packs included). (1) select_eq_decl: on a document that passes the multitree "
+    "the C07 allocator model, Matrix packs included), now linked to the C14 model of validate_structure. "
+    "(0) Headline on validated documents: select_eq_decl_validated - if validate_structure (C14 model "
+    "Validate.validateStructure on the document graph toDoc adm of the same document) accepts, then building the "
+    "AllocationPacks never fails (wrappedPacks_ok_of_validate, from C14's matrixPackOk_of_struct/decode_encode_input) and "
+    "select_rendering_items either returns exactly the declarative items [item | state in specStates, allocated pack in "
+    "THE valid allocation of the state, item in declItems], or fails with the error of the complementary-object "
+    "selection, or with the error of one state: 'Conflicting format references' exactly when that state has no valid "
+    "allocation, 'Ambiguous' exactly when it has two inequivalent ones (C07 accept_iff_unique), anything else only "
+    "when its unique valid allocation has a pack without usable output (OutputOK) or without the per-item parameter "
+    "merges (PackItemsOK) (itemsOfState_error_cases). select_ok_iff: validation+selection return items iff validation "
+    "passes and the complementary selection is consistent (selectComplementary_ok_iff) and for every state of the "
+    "comprehension the allocation problem has exactly one valid allocation up to permutation, every allocated pack "
+    "satisfies OutputOK and the per-item merges exist (PackItemsOK: itemsOfPack_ok_iff, singleItem_ok_iff, "
+    "hoaItem_ok_iff, getPackFormatPath_ok_iff, getPathParam_ok_iff, hoaMetaOf_ok_iff, getSingleParam_ok_iff); "
+    "select_ok_iff_of_multitree / itemsOfState_ok_iff are the same without the C14 link. multitreeOK_of_validate: "
+    "validate_structure => multitreeOK (the C06 predicate's node list is a sublist of the node list of C14's dfs, "
+    "mtVisit_sublist + C14 mtDfs_ok); wrappedNonempty is NOT implied (example exEmptyPackDoc: validated, channel-less "
+    "pack, selection works). "
+    "(1) select_eq_decl: on a document that passes the multitree "
     "check, whenever selection returns, items = [item | state in specStates (programme contents / root objects / "
     "object paths avoiding ignored complementary objects; select_eq_spec, select_once_per_path, specStates_nodup, "
     "mem_specStates_iff, select_excludes_ignored, mem_ignored_iff), allocated pack in THE allocation of the state, "
@@ -487,28 +539,44 @@ REGISTRY = dict(
     "channel-less packs are never allocated: selectPackMapping_dropEmpty). (3) Declaration-order independence: "
     "select_perm_partial (programme->content, content->object, object->sub-object lists), select_perm_objects(_rename) "
     "(re-numbering audioObjects), select_perm_own_refs (an object's own pack / track reference lists, silent tracks "
-    "included: success preserved, items equal up to Perm), select_perm_formats(_rename)_partial (re-numbering packs / "
-    "channels / trackUIDs / stream+track formats: items equal up to Perm and renaming), select_programme_lowest_id / "
+    "included: success preserved, items equal up to Perm), select_perm_formats(_rename) (re-numbering packs / "
+    "channels / trackUIDs / stream+track formats, CHNA-only mode included: selection succeeds on the re-numbered "
+    "document iff it does on the original, and then the items are equal up to Perm and renaming; through C07 "
+    "accept_iff_unique, valid allocations corresponding there and back: ProbIso.valid/symm/roundtrip/accepted, "
+    "fmtRenamed_stateIso, fmtRenamed_itemsOfState_iff; the multitree check is invariant: FmtRenamed.multitreeOK), "
+    "select_programme_lowest_id / "
     "select_programme_order_independent, select_renumber_contents(_rename) / select_renumber_programmes(_rename) "
     "(re-numbering audioContents / audioProgrammes with distinct ids: the same result - items in the same order with "
     "the index renamed, or the same error); chna_only_all_tracks, no_programme_all_roots. "
-    "Left to correspondence + search (not proved): for the format re-numbering, that selection succeeds on the "
-    "re-numbered document whenever it does on the original, and CHNA-only mode; "
-    "that validate_structure establishes multitreeOK (C14 proves it for its own dfs model; here compared with the "
-    "real validation on generated documents incl. injected diamonds and pack loops). The model is tied to the code "
+    "PARTIAL: (a) each kind of re-declaration has its own theorem (select_perm_partial is named _partial because it "
+    "covers the content-part child lists only); one theorem for an arbitrary simultaneous re-declaration (their "
+    "composition) is not stated, and re-ordering the sub-pack reference list of an audioPackFormat is not covered by "
+    "any of them (correspondence + search only); (b) the error branch does not classify the non-allocation errors "
+    "further (that OutputOK / PackItemsOK hold on validated documents - i.e. that such errors cannot happen - is C14's "
+    "no-internal-error property, proved there for its own model and not transported here). "
+    "The model is tied to the code "
     "on every run: generated scenes (incl. Matrix packs, ambiguous/conflicting allocations, channel-less packs) are "
     "built as real ADM documents, serialised by index to the Lean driver, and canonical items (incl. nested track "
     "specs; block formats and extra data read through metadata_source.get_next_block() after selection returned) "
     "compared in order for the document and 3 re-declarations; multitreeOK / wrappedNonempty are compared with "
-    "_validate_pack_channel_multitree / the real AllocationPacks; the direct predicate compares the real items with "
+    "_validate_pack_channel_multitree / the real AllocationPacks, and the C14 model's validateMultitree / "
+    "validateStructure evaluated on toDoc of the same serialised document with the real "
+    "_validate_pack_channel_multitree / validate_structure (also on injected diamonds, pack loops, channel-less packs); "
+    "the direct predicate compares the real items with "
     "an independent comprehension oracle and across re-declarations as multisets.",
     note="Trusted: Lean kernel; hand transliteration of select_items.py/utils.py/hoa.py/matrix.py + C07 allocator model "
-    "+ correspondence harness (index serialisation, canonicalisation, labels); validate_structure is outside the "
-    "model (its multitree result enters as the decidable hypothesis multitreeOK, cross-checked against the real "
-    "function). Quantifier limits: documents that pass validation, distinct fixed-width programme ids. Imports "
-    "Props/C07 (uniqueness), Props/C20 (matrix_pack_spec_meaning), Proofs/C14Empty (selectPackMapping_dropEmpty).",
-    technique="Lean 4 proof (list comprehension equalities, Nodup/Perm, renaming equivariance, C07 uniqueness, iff-"
-    "characterisations of the helper functions) about a transliterated model + differential correspondence with the "
-    "real select_rendering_items + oracle search",
+    "+ C14 model of validate.py (Model/Validate.lean, tied to the code by the C14 check) + the translation toDoc "
+    "between the two document models (Model/SelectItems.lean: invents nothing validation could reject - "
+    "cartesian/equation/gainVar flags false, v2 allowed, every track UID has a track index; compared with the real "
+    "validate_structure on every generated document) "
+    "+ correspondence harness (index serialisation, canonicalisation, labels). Quantifier limits: references in "
+    "range, distinct fixed-width programme ids. Imports "
+    "Props/C07 (uniqueness), Props/C20 (matrix_pack_spec_meaning), Proofs/C14Empty (selectPackMapping_dropEmpty), "
+    "Proofs/C14, Proofs/C14Matrix (mtDfs_ok, validateStructure_ok, matrixPackOk_of_struct) through Proofs/C06Doc.",
+    technique="Lean 4 proof (list comprehension equalities, Nodup/Perm/Sublist, renaming equivariance with inverse "
+    "transfer, C07 uniqueness, iff-"
+    "characterisations of the helper functions, simulation between the C06 and C14 document models) about a "
+    "transliterated model + differential correspondence with the "
+    "real select_rendering_items / validate_structure + oracle search",
     design_ref="DESIGN.md section 4, C06",
 )
